@@ -65,7 +65,7 @@ impl Kind {
     }
 }
 
-const WRAPS: [&str; 10] = ["none", "macro", "macro-uninvoked", "if1", "if0", "interp", "loop", "loopdef", "macro-arg", "macro-arg-same-name"];
+const WRAPS: [&str; 11] = ["none", "macro", "macro-uninvoked", "if1", "if0", "interp", "loop", "loopdef", "macro-arg", "macro-named-a", "macro-arg-same-name"];
 const FORMS: [&str; 5] = ["a", "super.a", "super.super.a", "s1.a", "s1.s2.a"];
 const LEVELS: [&str; 3] = ["root", "s1", "s2"];
 const IMPORTS: [&str; 6] = ["star", "named", "alias", "ns", "twice", "block"];
@@ -138,7 +138,7 @@ impl Spec {
 }
 
 pub fn catalogue(thorough: bool) -> Vec<Spec> {
-    let wraps: Vec<usize> = if thorough { (0..WRAPS.len()).collect() } else { vec![0, WRAPS.len() - 1] };
+    let wraps: Vec<usize> = if thorough { (0..WRAPS.len()).collect() } else { vec![0, WRAPS.len() - 2, WRAPS.len() - 1] };
     let kinds = [Kind::N, Kind::L, Kind::C];
     let mut out = vec![];
     for k0 in kinds {
@@ -167,6 +167,10 @@ pub fn catalogue(thorough: bool) -> Vec<Spec> {
                     for &wrap in &wraps {
                         for import_last in [false, true] {
                             if import_last && wrap != 0 {
+                                continue;
+                            }
+                            // (this wrapper needs its macro at the top of the file: base programs only)
+                            if WRAPS[wrap] == "macro-named-a" {
                                 continue;
                             }
                             out.push(Spec::Import { imp, okind, s1kind, ulevel, sup, wrap, import_last });
@@ -406,6 +410,15 @@ impl Gen {
         }
     }
 
+    /// `.macro a() { <use> }` at the top level of main.asm, for the wrapper "macro-named-a"
+    fn macro_named_a(&mut self, path: &str, level: &str) {
+        let w = "macro-named-a";
+        let l = self.line(0, ".macro a() {".to_string());
+        self.add_def(0, l, 7, "a", "macro", None, None, w, level);
+        self.use_block(0, 1, 0, path, level, path, w, false);
+        self.close(0, 0);
+    }
+
     /// the main use with its wrapper
     fn main_use(&mut self, f: usize, ind: usize, path: &str, level: &str, wrap: usize) {
         let w = WRAPS[wrap];
@@ -435,6 +448,25 @@ impl Gen {
                 use_id: None,
                     });
                 }
+            }
+            "macro-named-a" => {
+                // the macro `a` is defined at the top of the file (see `macro_named_a`); here it is invoked,
+                // possibly with a label or constant `a` nearer than the macro
+                let l = self.line(f, format!("{}a()", i));
+                let form = self.form("a()");
+                self.occs.push(Occ {
+                    file: f,
+                    line: l,
+                    c0: i.len() as u32,
+                    c1: i.len() as u32 + 1,
+                    probes: vec![(i.len() as u32, 1, "a".into())],
+                    role: Role::KnownName("macro:a".into()),
+                    level: level.to_string(),
+                    form,
+                    wrap: w,
+                    resolved: Resolved::SymmetricOnly,
+                    use_id: None,
+                });
             }
             "macro-arg" | "macro-arg-same-name" => {
                 // (same-name: the parameter is called `a` like the symbols of the catalogue)
@@ -537,6 +569,9 @@ pub fn generate(spec: &Spec) -> Program {
                     }
                     g.def_a(0, lvl, kinds[lvl], name, name, tag, cval, "none");
                 }
+            }
+            if WRAPS[*wrap] == "macro-named-a" {
+                g.macro_named_a(FORMS[*form], LEVELS[*ulevel]);
             }
             level(&mut g, 0, kinds, *ulevel, *form, *wrap, *use_first);
             g.tail();
@@ -657,6 +692,8 @@ pub fn generate(spec: &Spec) -> Program {
                 p.defs.iter().position(|d| d.level == "other" && d.name == "a")
             } else if let Some(pn) = n.strip_prefix("param:") {
                 p.defs.iter().position(|d| d.kind == "macro-arg" && d.name == pn)
+            } else if let Some(mn) = n.strip_prefix("macro:") {
+                p.defs.iter().position(|d| d.kind == "macro" && d.name == mn)
             } else {
                 p.defs.iter().position(|d| &d.name == n)
             };
@@ -1909,6 +1946,12 @@ fn run_program(run: &Run, spec: &Spec, c15: bool) {
         return;
     }
     if let Err(e) = resolve(&mut p, &asm) {
+        // `.word a` where the only `a` in reach is the macro itself: the implementation emits nothing for it (and
+        // reports nothing); such a program has no use to judge
+        if e == "word payload of 0 bytes" && spec.to_json()["wrap"] == "macro-named-a" {
+            ctx.count("out_of_scope_use_refers_to_the_macro_itself");
+            return;
+        }
         ctx.count("machinery_layout_assumption_broken");
         ctx.cap(format!("{} for {}", e, spec.to_json()));
         return;
@@ -1982,7 +2025,7 @@ pub fn run(ctx: &Ctx, replay: Option<&Value>) -> i32 {
         "bound",
         json!({
             "levels": 3, "definition_kinds": ["none", "label", "const"], "path_forms": FORMS,
-            "wrappers": if ctx.tier.is_thorough() { WRAPS.to_vec() } else { vec!["none", "macro-arg-same-name"] },
+            "wrappers": if ctx.tier.is_thorough() { WRAPS.to_vec() } else { vec!["none", "macro-named-a", "macro-arg-same-name"] },
             "orders": if c15 && !ctx.tier.is_thorough() { json!(["definitions-first"]) } else { json!(["definitions-first (all wrappers)", "uses-first (unwrapped use only)"]) },
             "imports": IMPORTS,
             "positions": if c15 { json!(["start", "middle", "end"]) } else { json!(["first char", "last char"]) },
